@@ -16,7 +16,7 @@ PLANS = {
     "C04": dict(
         title="The value serializer is lossless and exact about what it accepts",
         contracts=["brine", "compat"], specs=["brine_spec"], table="module",
-        targets=BRINE_ALL, lemmas=["app_snoc", "app_nil", "plain_snoc", "vlen_app"],
+        targets=BRINE_ALL, lemmas=["app_snoc", "app_nil", "plain_snoc", "vlen_app", "sized_snoc", "vlen_snoc"],
         compositions=["C04/roundtrip", "C04/refuses-exactly-nonplain"],
         native_focus=[(BRINE + "dump", "default"), (BRINE + "load", "roundtrip"), (BRINE + "load", "safety"),
                       (BRINE + "dumpable", "default"), (BRINE + "_load", "roundtrip"), (BRINE + "_load", "safety")],
@@ -69,7 +69,7 @@ PLANS["C05"] = dict(
 PLANS["C19"] = dict(
     title="Bytes on the wire are those of the published 5.x protocol",
     contracts=["brine", "compat", "externals", "stream", "channel"], specs=["brine_spec", "channel_spec"], table="reference",
-    targets=BRINE_ALL + CHANNEL_FUNCS, lemmas=["app_snoc", "app_nil", "plain_snoc", "vlen_app"],
+    targets=BRINE_ALL + CHANNEL_FUNCS, lemmas=["app_snoc", "app_nil", "plain_snoc", "vlen_app", "sized_snoc", "vlen_snoc"],
     compositions=["C04/roundtrip", "C05/sequence-step"], finite=["wire_constants"],
     native_focus=[(BRINE + "dump", "default"), (BRINE + "load", "roundtrip"), (CHANNEL + "Channel.send", "default"),
                   (CHANNEL + "Channel.recv", "roundtrip")],
@@ -89,8 +89,8 @@ PROTO = "rpyc/core/protocol.py::Connection."
 ATTR_FUNCS = [PROTO + n for n in ("_check_attr", "_access_attr", "_handle_getattr", "_handle_setattr", "_handle_delattr",
                                   "_handle_call", "_handle_callattr", "_handle_cmp", "_handle_ctxexit", "_handle_oldslicing")]
 SERVICE_HOOKS = ["rpyc/core/service.py::Service._rpyc_delattr", "rpyc/core/service.py::Service._rpyc_setattr"]
-ALL_CONTRACTS = ["brine", "compat", "externals", "stream", "channel", "protocol_attr"]
-ALL_SPECS = ["brine_spec", "channel_spec", "policy_spec"]
+ALL_CONTRACTS = ["brine", "compat", "externals", "stream", "channel", "protocol_attr", "colls", "protocol_box", "protocol_core"]
+ALL_SPECS = ["brine_spec", "channel_spec", "policy_spec", "refcount_spec", "protocol_spec"]
 
 PLANS["C06"] = dict(
     title="Attribute access by the peer follows the connection's policy, and only its own",
@@ -107,5 +107,23 @@ PLANS["C06"] = dict(
         "type invariant of a connection's configuration (precondition): the seven switches are bools, the prefix is text",
         "when a name is allowed AND the object has an exposed twin, either may be accessed (the statement does not "
         "choose); every other case is pinned by the statement",
+    ],
+)
+
+PLANS["C12"] = dict(
+    title="Concurrent senders never interleave, lose or strand a message (single-thread re-entrant schedules only)",
+    contracts=ALL_CONTRACTS, specs=ALL_SPECS, table="module",
+    targets=[PROTO + "_send"], lemmas=["frames_app", "all_fit_app"], compositions=[],
+    native_focus=[], design_ref="DESIGN.md section 4, C12",
+    assumptions=COMMON_ASSUMPTIONS + [
+        "RESTRICTED SCOPE: one thread; arbitrarily many sends started re-entrantly on the thread that is already inside "
+        "a send (proxy finalizers running during transmission), nested to any depth. Schedules with two or more "
+        "threads are NOT covered - in particular the `if not self._send_queue: continue` re-check is dead code here",
+        "re-entrancy model: while Channel.send runs, nested _send calls find the lock held and therefore only APPEND to "
+        "the queue (their own `held` contract); so after the call the queue is the old queue plus arbitrary appended "
+        "messages, each within the format's size limit",
+        "threading.Lock with sequential semantics (ghost flag held); list.append / pop(0) as operations on a sequence",
+        "Channel.send's contract (discharged under C05 / C19): one call = one contiguous frame",
+        "scope: every message fits the 32-bit length field of the frame",
     ],
 )
